@@ -647,7 +647,9 @@ func (ls *LState) raiseError(level int, format string, args ...interface{}) {
 			// raised from a host function (error, L.Error): level 0 is that function itself
 			level++
 		}
-		message = fmt.Sprintf("%v %v", ls.where(level-1, true), message)
+		if where := ls.where(level-1, true); len(where) > 0 {
+			message = fmt.Sprintf("%v %v", where, message)
+		}
 	}
 	if ls.reg.IsFull() {
 		// if the registry is full then it won't be possible to push a value, in this case, force a larger size
